@@ -19,9 +19,9 @@ RULE = ("case = one API point of the table (index = case mod table size; argumen
 ASAN = "abort_on_error=1:detect_leaks=0:allocator_may_return_null=1:handle_abort=0:detect_stack_use_after_return=0:malloc_context_size=12"
 
 STEPS = [
-    dict(flavor="asan", harness="h_locks", args=[], cases=dict(quick=480, thorough=1152),
+    dict(flavor="asan", harness="h_locks", args=[], cases=dict(quick=480, thorough=576),
          env={"ASAN_OPTIONS": ASAN}, timeout=dict(quick=600, thorough=3000)),
-    dict(flavor="asan", harness="h_locks", args=["--mode", "debuglocks"], cases=dict(quick=96, thorough=384), seed_off=101,
+    dict(flavor="asan", harness="h_locks", args=["--mode", "debuglocks"], cases=dict(quick=96, thorough=192), seed_off=101,
          env={"ASAN_OPTIONS": ASAN}, timeout=dict(quick=600, thorough=3000)),
 ]
 
@@ -38,8 +38,10 @@ REG = dict(
           "memfault/sysfault for the fault positions. A second pass runs with evthread_enable_lock_debugging() so the library's "
           "own lock assertions are live. Functions not in the table (evrpc, evtag, ws, ssl transports) and paths that need a "
           "specific peer behaviour beyond the scripted ones are not covered; the lock-enabled re-runs of other properties' "
-          "workloads (DESIGN W(b)) are not part of this check. Crashes of the library on an error path are reported too "
-          "(sanitizer keys) although they are not lock leaks."),
+          "workloads (DESIGN W(b)) are not part of this check. A crash of the library while a fault is injected (unchecked "
+          "allocation result etc.) is not a lock statement: it is counted (fault_runs_that_killed_the_process), printed as a NOTE "
+          "line and the sweep continues in a new process; it becomes a violation only if the report involves evthread*.c. "
+          "Crashes without an injected fault are violations."),
     technique="API x fault enumeration with an external lock ledger and a second-thread probe",
 )
 
